@@ -107,6 +107,14 @@ type smRunner struct {
 	nxActive   bool   // the seat was still active when the newcomer joined AND it was occupied at the last successful Next (vacated since)
 	occAtNext  []bool // occupancy at the last successful Next
 	lastDealer int    // ghost: the dealer's seat after the last successful Next (-1: none, or a Next has failed since)
+	lastBB     int    // ghost: the big blind's seat after the last successful Next (-1 as for lastDealer)
+	nxHands    int    // hands started while the tracked newcomer had only joined (the k of C08.newcomer_timing_interleaved)
+	nxEarly    string // "" or the known finding (D4 / D10) whose mechanism activated the newcomer's seat in one of those hands although the button had not passed it
+	// C18 ghosts
+	held     map[int]int // seat -> pid of a player who joined that seat and for whom no Seat(seat) has been issued since
+	undisc   bool        // the history contains a join of a player id that was seated at that moment (outside no_double_booking_disciplined)
+	freePids []int       // ids of players who left and are seated nowhere (the generator re-uses them: disciplined re-joins)
+	hands    int         // hands started (successful Next) in this history
 }
 
 func (r *smRunner) newSM(max int) {
@@ -117,8 +125,96 @@ func (r *smRunner) newSM(max int) {
 	r.joins, r.leave = 0, 0
 	r.nx = -1
 	r.occAtNext = nil
-	r.lastDealer = -1
+	r.lastDealer, r.lastBB = -1, -1
+	r.held = map[int]int{}
+	r.undisc = false
+	r.freePids = r.freePids[:0]
+	r.hands = 0
 	r.o.Emit(fmt.Sprintf("sm new %d", max), smObs(r.m, "none", "-"))
+	r.o.Count(fmt.Sprintf("sm.max.%d", max))
+	// O13 (DESIGN §11): the query GetPlayableSeats() on a table without a button — outside the alphabet (I12), counted only
+	r.playableList(nil, false)
+}
+
+// sameSnap: the two snapshots describe the same seat-manager state (seat map, flags and the three position pointers).
+func sameSnap(a, b *smSnap) bool {
+	if a.dealer != b.dealer || a.sb != b.sb || a.bb != b.bb || len(a.seats) != len(b.seats) {
+		return false
+	}
+	for i := range a.seats {
+		if a.seats[i] != b.seats[i] {
+			return false
+		}
+	}
+	return true
+}
+
+// onlySeatChanged: apart from seat `only` (-1: none) the seat map is unchanged, and so are the three position pointers.
+func onlySeatChanged(a, b *smSnap, only int) bool {
+	if a.dealer != b.dealer || a.sb != b.sb || a.bb != b.bb || len(a.seats) != len(b.seats) {
+		return false
+	}
+	for i := range a.seats {
+		if i != only && a.seats[i] != b.seats[i] {
+			return false
+		}
+	}
+	return true
+}
+
+// clockwisePlayable: the playable seats of s in table order starting at seat `from` (inclusive).
+func (s *smSnap) clockwisePlayable(from int) []int {
+	xs := []int{}
+	n := len(s.seats)
+	for k := 0; k < n; k++ {
+		if i := (from + k) % n; s.playable(i) {
+			xs = append(xs, i)
+		}
+	}
+	return xs
+}
+
+// playableList reads the exported query GetPlayableSeats() — the list table/internal.go builds the next game's players
+// and their order from, named by C08's observe_at.  After a SUCCESSFUL Next() (post != nil, ok) it must be the playable
+// seats in clockwise order starting with the dealer (C08.positions_playable: the dealer is playable, so the list starts
+// with the button; the blinds are its next members by heads_up_layout / ring_layout).  On a table without a button
+// (fresh, or the last Next() was refused) the query dereferences a nil dealer: observation O13, counted, no alarm (I12).
+func (r *smRunner) playableList(post *smSnap, ok bool) {
+	if r.m == nil {
+		return
+	}
+	got := []int{}
+	_, pan := safely(func() error {
+		for _, s := range r.m.GetPlayableSeats() {
+			got = append(got, s.ID)
+		}
+		return nil
+	})
+	if !ok {
+		if pan {
+			r.o.Count("sm.obs.O13_playable_seats_query_panics")
+		} else {
+			r.o.Count("sm.obs.playable_seats_query_without_hand")
+		}
+		return
+	}
+	r.o.Count("sm.playable_list_checked")
+	if pan {
+		r.V("C08", "playable_seats_list", "GetPlayableSeats() panicked after a successful Next()")
+		return
+	}
+	want := post.clockwisePlayable(post.dealer)
+	same := len(got) == len(want)
+	for i := 0; same && i < len(got); i++ {
+		same = got[i] == want[i]
+	}
+	if !same {
+		r.V("C08", "playable_seats_list", fmt.Sprintf("after a successful Next() (dealer=%d sb=%d bb=%d) GetPlayableSeats() lists seats %v, the playable seats clockwise from the dealer are %v",
+			post.dealer, post.sb, post.bb, got, want))
+	}
+	if len(want) >= 3 {
+		r.o.Count("sm.playable_list_checked.ring")
+	}
 }
 
 // between: x strictly between a and b going clockwise from a (cyclic on max seats).
@@ -182,6 +278,35 @@ func (r *smRunner) exec(f []string) {
 	r.o.Count("sm.err." + smErrName(err))
 	post := snapSM(r.m)
 	r.monitor(f, pre, post, err, ret)
+	if f[0] == "next" {
+		r.playableList(post, err == nil)
+	}
+}
+
+// nilPlayerProbe: Join(seat, nil) on a SCRATCH seat manager of the same size (the table under test is not touched; the
+// model has no nil player).  Players are non-nil by the reading of C18 (identity is the caller's); what the code does
+// with a nil player is recorded as an observation, never an alarm.
+func (r *smRunner) nilPlayerProbe(max, seat int) {
+	r.o.Emit(fmt.Sprintf("noise sm nilplayer %d %d", max, seat), "ok")
+	m := sm.NewSeatManager(max)
+	var got int
+	var err error
+	_, pan := safely(func() error { got, err = m.Join(seat, nil); return nil })
+	r.o.Count("sm.obs.nil_player_probe")
+	switch {
+	case pan:
+		r.o.Count("sm.obs.nil_player_join_panics")
+	case err != nil:
+		r.o.Count("sm.obs.nil_player_join_refused")
+	default:
+		r.o.Count("sm.obs.nil_player_join_accepted")
+		if m.GetPlayerCount() == 0 {
+			r.o.Count("sm.obs.nil_player_not_counted")
+		}
+		if st := m.GetSeat(got); st != nil && st.IsReserved && st.Player == nil {
+			r.o.Count("sm.obs.nil_player_leaves_seat_reserved")
+		}
+	}
 }
 
 func (r *smRunner) monitor(f []string, pre, post *smSnap, err error, ret string) {
@@ -200,6 +325,18 @@ func (r *smRunner) monitor(f []string, pre, post *smSnap, err error, ret string)
 	switch f[0] {
 	case "join":
 		pid := int(atoi(f[2]))
+		for _, ps := range pre.seats {
+			if ps.pid == pid {
+				// the same player joins while seated: outside `Disciplined` (C18.no_double_booking_disciplined assumes a player
+				// joins only while not seated; the seat manager does not compare identities) — observation, counted only
+				if !r.undisc {
+					r.o.Count("sm.obs.undisciplined_histories")
+				}
+				r.undisc = true
+				r.o.Count("sm.obs.join_while_seated." + smErrName(err))
+				break
+			}
+		}
 		if arg >= 0 {
 			mustRefuse := arg >= max || pre.seats[arg].pid >= 0
 			if mustRefuse && err == nil {
@@ -223,6 +360,16 @@ func (r *smRunner) monitor(f []string, pre, post *smSnap, err error, ret string)
 				got := int(atoi(ret))
 				if got < 0 || got >= max || pre.seats[got].pid >= 0 || pre.seats[got].reserved {
 					r.V("C18", "join_spec", fmt.Sprintf("join-any put the player on seat %d which was not an empty non-reserved seat", got))
+				} else if !pre.seats[got].active {
+					// active seats are preferred (theorem C18.join_any_lands; C18's wording only asks for SOME empty non-reserved
+					// seat): counted, compared through the correspondence only
+					r.o.Count("sm.join_any_on_inactive_seat")
+					for _, ps := range pre.seats {
+						if ps.pid < 0 && !ps.reserved && ps.active {
+							r.o.Count("sm.obs.join_any_on_inactive_seat_while_active_free")
+							break
+						}
+					}
 				}
 			} else if err == sm.ErrNoAvailableSeat && free > 0 {
 				r.V("C18", "join_spec", fmt.Sprintf("join-any reports no seat although %d empty non-reserved seats exist", free))
@@ -237,25 +384,107 @@ func (r *smRunner) monitor(f []string, pre, post *smSnap, err error, ret string)
 				r.V("C18", "join_spec", fmt.Sprintf("join changed seats %v, returned seat %d", changedSeats, got))
 			} else if post.playable(got) {
 				r.V("C18", "joined_held_out", fmt.Sprintf("seat %d is playable right after joining", got))
+			} else if !onlySeatChanged(pre, post, got) || post.seats[got].active != pre.seats[got].active {
+				// theorem C18.join_empty: the seat now holds the player and is reserved, its active flag is untouched,
+				// every other seat and the positions are unchanged
+				r.V("C18", "join_spec", fmt.Sprintf("join on seat %d changed the flags of another seat, the seat's own active flag or a position", got))
+			}
+			if got >= 0 && got < max {
+				r.held[got] = pid
+			}
+			for k, p := range r.freePids {
+				if p == pid {
+					r.freePids = append(r.freePids[:k], r.freePids[k+1:]...)
+					r.o.Count("sm.rejoin_after_leave")
+					break
+				}
 			}
 		} else if len(changedSeats) != 0 {
 			r.V("C18", "join_spec", "refused join changed the seat map")
+		} else if !sameSnap(pre, post) {
+			// theorems C18.join_out_of_range / join_occupied / join_any_none_iff: a refused join changes nothing
+			r.V("C18", "join_spec", "refused join changed seat flags or positions")
 		}
 	case "leave":
 		if err == nil {
 			r.leave++
 			if len(changedSeats) != 1 || changedSeats[0] != arg || post.seats[arg].pid != -1 {
 				r.V("C18", "leave_frees", fmt.Sprintf("leave %d changed seats %v", arg, changedSeats))
+			} else if post.seats[arg].reserved {
+				// "leaving frees exactly that seat": free = empty AND not reserved (theorem C18.leave_frees, third clause)
+				r.V("C18", "leave_frees", fmt.Sprintf("seat %d is still reserved after its player left: nobody can be put there by join-any", arg))
+			} else if !onlySeatChanged(pre, post, arg) || post.seats[arg].active != pre.seats[arg].active {
+				// same clause: the active flag is untouched, every other seat and the positions are unchanged
+				r.V("C18", "leave_frees", fmt.Sprintf("leave %d changed the flags of another seat, the seat's own active flag or a position", arg))
+			}
+			if arg >= 0 && arg < max && pre.seats[arg].pid >= 0 {
+				still := false
+				for _, ps := range post.seats {
+					still = still || ps.pid == pre.seats[arg].pid
+				}
+				if !still {
+					r.freePids = append(r.freePids, pre.seats[arg].pid)
+				}
 			}
 		} else if len(changedSeats) != 0 {
 			r.V("C18", "leave_frees", "refused leave changed the seat map")
+		} else if !sameSnap(pre, post) {
+			// theorem C18.leave_frees, first two clauses: unknown or empty seat -> refused, nothing changes
+			r.V("C18", "leave_frees", "refused leave changed seat flags or positions")
 		}
 		if err == nil && (arg < 0 || arg >= max || pre.seats[arg].pid < 0) {
 			r.V("C18", "leave_frees", "leave on an empty / unknown seat accepted")
 		}
+	case "seat", "reserve":
+		if len(changedSeats) != 0 {
+			r.V("C18", "occupancy", fmt.Sprintf("%s changed who sits where: %v", f[0], changedSeats))
+		}
+		// Seat / Reserve (lemmas step_seat_cases / step_reserve_cases, Proofs/SMJoin.lean): refused with not-found-seat exactly
+		// for a seat outside the table, and then nothing changes; otherwise the seat's reserved flag is cleared / set and
+		// nothing else changes.  ("until they sit in" of C18 and the sit-in / reserve operations of C08's quantifier rest on it.)
+		inRange := arg >= 0 && arg < max
+		switch {
+		case inRange && err != nil:
+			r.V("C18", "seat_reserve_spec", fmt.Sprintf("%s %d on an existing seat refused: %v", f[0], arg, err))
+		case !inRange && err != sm.ErrNotFoundSeat:
+			r.V("C18", "seat_reserve_spec", fmt.Sprintf("%s %d outside the table returned %v", f[0], arg, err))
+		case !inRange && !sameSnap(pre, post):
+			r.V("C18", "seat_reserve_spec", fmt.Sprintf("refused %s %d changed the state", f[0], arg))
+		case inRange:
+			want := pre.seats[arg]
+			want.reserved = f[0] == "reserve"
+			if post.seats[arg] != want || !onlySeatChanged(pre, post, arg) {
+				r.V("C18", "seat_reserve_spec", fmt.Sprintf("%s %d: seat is %+v (expected %+v), or another seat / a position changed", f[0], arg, post.seats[arg], want))
+			}
+			r.o.Count("sm.seat_reserve_checked")
+		}
+		if f[0] == "seat" && err == nil && inRange {
+			delete(r.held, arg) // the player on this seat (if any) has sat in
+		}
 	default:
 		if len(changedSeats) != 0 {
 			r.V("C18", "occupancy", fmt.Sprintf("%s changed who sits where: %v", f[0], changedSeats))
+		}
+	}
+	// "a player who has merely joined is held out of play until they sit in" — at EVERY later instant, not only right after
+	// the join (theorem C18.joined_held_out: not playable through every operation sequence without Seat(i)); and since the
+	// positions of a hand are playable seats (C08.positions_playable) such a seat holds no position when a hand starts
+	for i, pid := range r.held {
+		bad := ""
+		if post.playable(i) {
+			bad = "is playable"
+		} else if f[0] == "next" && err == nil && post.seats[i].pid >= 0 && (post.dealer == i || post.sb == i || post.bb == i) {
+			bad = "holds a position of the new hand"
+		}
+		if bad != "" {
+			r.V("C18", "joined_held_out", fmt.Sprintf("seat %d (player %d joined, nobody has sat in on that seat since) %s after %s", i, pid, bad, strings.Join(f, " ")))
+			delete(r.held, i)
+		}
+	}
+	if len(r.held) > 0 {
+		r.o.Count("sm.held_out_checked")
+		if f[0] == "next" && err == nil {
+			r.o.Count("sm.held_out_checked.at_hand_start")
 		}
 	}
 	cnt := 0
@@ -263,8 +492,12 @@ func (r *smRunner) monitor(f []string, pre, post *smSnap, err error, ret string)
 	for _, s := range post.seats {
 		if s.pid >= 0 {
 			cnt++
-			if seen[s.pid] {
+			if seen[s.pid] && !r.undisc {
+				// theorem C18.no_double_booking_disciplined: players who join only while not seated (re-joins after a leave
+				// and retries after a refusal included) are never seated twice
 				r.V("C18", "no_double_booking", fmt.Sprintf("player %d is seated twice", s.pid))
+			} else if seen[s.pid] {
+				r.o.Count("sm.obs.same_player_on_two_seats")
 			}
 			seen[s.pid] = true
 		}
@@ -347,18 +580,15 @@ func (r *smRunner) monitor(f []string, pre, post *smSnap, err error, ret string)
 				wb := nextPlayable(ws)
 				if post.sb != ws || post.bb != wb {
 					finding := ""
-					if post.sb == post.dealer {
-						// D4: the late-activated third seat is a waiting player the button has NOT passed in
-						// this move (one it did pass must have been let in by nextDealer before the layout
-						// was chosen: that would be a different defect)
+					prev := pre.dealer
+					if r.lastDealer >= 0 {
+						prev = r.lastDealer
+					}
+					if post.sb == post.dealer && post.bb == ws && d4History(pre, post, prev, max) {
 						finding = "D4"
-						for i, ps := range pre.seats {
-							if ps.pid >= 0 && !ps.reserved && !ps.active && pre.dealer >= 0 && between(pre.dealer, i, post.dealer, max) {
-								finding = ""
-							}
-						}
 					}
 					r.o.ViolateF("C08", "ring_layout", desc+fmt.Sprintf(" expected sb=%d bb=%d", ws, wb), finding)
+					r.o.Count("sm.ring_layout_violations.tag" + finding)
 				}
 			} else {
 				r.V("C08", "positions_playable", "Next() succeeded with fewer than two playable seats: "+desc)
@@ -367,78 +597,192 @@ func (r *smRunner) monitor(f []string, pre, post *smSnap, err error, ret string)
 		}
 	}
 
-	if f[0] == "next" {
-		if err == nil {
-			r.lastDealer = post.dealer
-		} else {
-			r.lastDealer = -1
-		}
-	}
-	if f[0] == "next" && err == nil {
-		r.occAtNext = make([]bool, len(post.seats))
-		for i, s := range post.seats {
-			r.occAtNext[i] = s.pid >= 0
-		}
-	}
 	// ---------- C08 newcomer timing ----------
+	// Ghost state only: "dealer" and "big blind" of the sentence are the seats of the last hand that was started
+	// (lastDealer / lastBB, set by a successful Next, void after a refused one), never the live pointers, which an operation
+	// in between may have corrupted.  The newcomer's history is `Join(x); next^k; Seat(x); next...` with the other players
+	// staying put: an operation that was refused or had no effect does not end it (the state is the same as without it);
+	// one that changed anything else does.  C08.newcomer_timing_interleaved: dealt in at a hand iff he has sat in before it
+	// AND the button has passed the seat in an earlier Next (also one that ran while he had only joined).
+	prevLast := r.lastDealer
 	switch {
 	case f[0] == "join" && err == nil:
 		got := int(atoi(ret))
-		if pre.dealer >= 0 && pre.bb >= 0 && between(pre.dealer, got, pre.bb, max) {
+		if r.lastDealer >= 0 && r.lastBB >= 0 && between(r.lastDealer, got, r.lastBB, max) {
 			r.nx, r.nxSeated, r.nxPassed, r.nxActive = got, false, false, pre.seats[got].active && got < len(r.occAtNext) && r.occAtNext[got]
+			r.nxHands, r.nxEarly = 0, ""
+			r.o.Count("sm.newcomer_tracked")
 		} else {
 			r.nx = -1
 		}
 	case f[0] == "seat" && err == nil && arg == r.nx && !r.nxSeated:
 		r.nxSeated = true
 	case f[0] == "next":
-		if r.nx >= 0 && err == nil {
-			if between(pre.dealer, r.nx, post.dealer, max) {
+		if r.nx >= 0 && err == nil && prevLast >= 0 {
+			if between(prevLast, r.nx, post.dealer, max) {
 				r.nxPassed = true
 			}
 			if r.nxSeated {
 				if post.playable(r.nx) != r.nxPassed {
 					finding := ""
-					if r.nxActive {
+					// the three known findings all deal the newcomer in TOO EARLY (playable, not passed); a newcomer who is
+					// passed and then not dealt in matches none of them
+					early := post.playable(r.nx) && !r.nxPassed
+					// ... and in D10 and D4 it is THIS Next() that lets him in: he was waiting (sat in, seat inactive) before it
+					waiting := !pre.seats[r.nx].active
+					if r.nxActive && early {
 						finding = "D9"
-					} else if len(pre.playableSet()) < 2 {
+					} else if len(pre.playableSet()) < 2 && early && waiting {
 						finding = "D10"
-					} else if post.playable(r.nx) && !between(post.dealer, r.nx, post.bb, max) {
+					} else if r.nxEarly != "" && early {
+						// interleaved form of D10 / D4: the seat was activated, unpassed, by a Next() that ran while the newcomer
+						// had only joined (see below); he is playable as soon as he sits in
+						finding = r.nxEarly
+					} else if early && waiting && !between(post.dealer, r.nx, post.bb, max) {
 						// the big blind landed in front of the newcomer's seat, which renewSeatStatus then activated
 						finding = "D4"
 					}
-					r.o.ViolateF("C08", "newcomer_timing", fmt.Sprintf("newcomer on seat %d (joined between dealer and big blind): playable=%v although the button has passed the seat=%v (dealer %d -> %d)",
-						r.nx, post.playable(r.nx), r.nxPassed, pre.dealer, post.dealer), finding)
+					r.o.ViolateF("C08", "newcomer_timing", fmt.Sprintf("newcomer on seat %d (joined between dealer and big blind, %d hands started before the sit-in): playable=%v although the button has passed the seat=%v (dealer %d -> %d)",
+						r.nx, r.nxHands, post.playable(r.nx), r.nxPassed, prevLast, post.dealer), finding)
+					r.o.Count("sm.newcomer_violations.tag" + finding)
+					if !early && r.nxActive {
+						r.o.Count("sm.newcomer_violations.late_on_vacated_seat") // matched the D9 arm before it looked at the direction
+					} else if !early && len(pre.playableSet()) < 2 {
+						r.o.Count("sm.newcomer_violations.late_with_few_playable") // matched the D10 arm before it looked at the direction
+					}
 					r.nxPassed = true // reported once per newcomer
 				}
 				r.o.Count("sm.newcomer_checked")
+				if r.nxHands > 0 {
+					r.o.Count("sm.newcomer_checked.interleaved")
+				}
 				if r.nxPassed {
 					r.nx = -1
 				}
+			} else {
+				r.nxHands++
+				if !r.nxPassed && !pre.seats[r.nx].active && post.seats[r.nx].active && r.nxEarly == "" {
+					// a hand started while the newcomer had only joined has ACTIVATED his seat although the button has not passed
+					// it.  Two mechanisms of the unchanged code do that, both known findings: with no playable seat at all the last
+					// fallback of nextDealer activates every seat (D10); and renewSeatStatus activates every seat behind the new big
+					// blind, a reserved one too, when the big blind has landed in front of the newcomer's seat (D4 b).  Anything
+					// else stays unexplained (a violation that follows from it is reported).
+					if len(pre.playableSet()) == 0 {
+						r.nxEarly = "D10"
+					} else if !between(post.dealer, r.nx, post.bb, max) && r.nx != post.dealer && r.nx != post.bb {
+						r.nxEarly = "D4"
+					}
+					r.o.Count("sm.newcomer_activated_while_only_joined.tag" + r.nxEarly)
+				}
 			}
-		} else if err != nil {
+		} else {
 			r.nx = -1
 		}
 	default:
-		r.nx = -1
+		if !sameSnap(pre, post) {
+			r.nx = -1
+		} else if r.nx >= 0 {
+			r.o.Count("sm.newcomer_kept_over_noop")
+		}
+	}
+	if f[0] == "next" {
+		if err == nil {
+			r.hands++
+			r.lastDealer, r.lastBB = post.dealer, post.bb
+			r.occAtNext = make([]bool, len(post.seats))
+			for i, s := range post.seats {
+				r.occAtNext[i] = s.pid >= 0
+			}
+		} else {
+			r.lastDealer, r.lastBB = -1, -1
+		}
 	}
 }
 
-func genSMOp(r *Rng, max int, nextPid *int) []string {
-	seat := func() string {
-		if r.Chance(0.06) {
-			return itoa([]int64{-2, -1, int64(max), int64(max) + 3, 99, -7}[r.Intn(6)])
-		}
-		return itoa(int64(r.Intn(max)))
+// d4History recognises the HISTORY of known finding D4 (not its symptom): renewSeatStatus counted exactly two playable
+// seats — the two that were playable before Next(), the button having passed no waiting (occupied, non-reserved,
+// inactive) seat in this move, so nextDealer let nobody in — chose the heads-up layout, and then activated a waiting
+// seat behind the new big blind, which is the third playable seat of the hand.  With one or no playable seat nextDealer
+// lets every waiting player in before the layout is chosen, with three or more (or two plus a passed waiting seat) the
+// ring branch is taken (theorem C08.ring_layout_exact: the layout is wrong iff the count after nextDealer was two): a
+// heads-up layout in any of those cases is NOT D4.  prev: the seat the button's walk starts behind (-1: from seat 0).
+func d4History(pre, post *smSnap, prev, max int) bool {
+	P := pre.playableSet()
+	if len(P) != 2 || !post.playable(P[0]) || !post.playable(P[1]) {
+		return false
 	}
-	k := r.Intn(100)
+	late := false
+	for i, ps := range pre.seats {
+		if !(ps.pid >= 0 && !ps.reserved && !ps.active) {
+			continue
+		}
+		passed := false
+		if prev < 0 {
+			passed = i < post.dealer
+		} else {
+			passed = between(prev, i, post.dealer, max)
+		}
+		if passed {
+			return false // let in by nextDealer before the layout was chosen: three playable seats were counted
+		}
+		if post.playable(i) {
+			late = true
+		}
+	}
+	if !late {
+		return false
+	}
+	// every playable seat of the new hand is one of the two, or a waiting seat activated late
+	for _, q := range post.playableSet() {
+		ps := pre.seats[q]
+		if q != P[0] && q != P[1] && !(ps.pid >= 0 && !ps.reserved && !ps.active) {
+			return false
+		}
+	}
+	return true
+}
+
+// smExtremeSeats: seat arguments at the edges of the integer domain (the model is unbounded; the code indexes a map).
+var smExtremeSeats = []int64{-1 << 63, 1<<63 - 1, 1 << 31, 1<<31 - 1, -1 << 31, 1<<32 + 1}
+
+func (r *smRunner) genOp(g *Rng, nextPid *int) []string {
+	max := r.max
+	seat := func() string {
+		if g.Chance(0.06) {
+			if g.Chance(0.25) {
+				r.o.Count("sm.args.extreme")
+				return itoa(smExtremeSeats[g.Intn(len(smExtremeSeats))])
+			}
+			return itoa([]int64{-2, -1, int64(max), int64(max) + 3, 99, -7}[g.Intn(6)])
+		}
+		return itoa(int64(g.Intn(max)))
+	}
+	// player identity: mostly fresh; a player who has left may come back (disciplined: C18.no_double_booking_disciplined);
+	// rarely a player who is seated right now joins again (outside the discipline: observation only)
+	player := func() string {
+		if len(r.freePids) > 0 && g.Chance(0.3) {
+			return itoa(int64(r.freePids[g.Intn(len(r.freePids))]))
+		}
+		if g.Chance(0.004) {
+			seated := []int{}
+			for _, st := range r.m.GetSeats() {
+				if p, ok := st.Player.(int); ok {
+					seated = append(seated, p)
+				}
+			}
+			if len(seated) > 0 {
+				return itoa(int64(seated[g.Intn(len(seated))]))
+			}
+		}
+		*nextPid++
+		return itoa(int64(*nextPid))
+	}
+	k := g.Intn(100)
 	switch {
 	case k < 24:
-		*nextPid++
-		return []string{"join", seat(), itoa(int64(*nextPid)), "-"}
+		return []string{"join", seat(), player(), "-"}
 	case k < 34:
-		*nextPid++
-		return []string{"join", "-1", itoa(int64(*nextPid)), "-"}
+		return []string{"join", "-1", player(), "-"}
 	case k < 56:
 		return []string{"seat", seat()}
 	case k < 61:
@@ -449,6 +793,356 @@ func genSMOp(r *Rng, max int, nextPid *int) []string {
 	return []string{"next"}
 }
 
+func (r *smRunner) ops(lines ...[]string) {
+	for _, l := range lines {
+		if r.dead {
+			return
+		}
+		r.exec(l)
+	}
+}
+
+func (r *smRunner) sit(seat int, pid *int) {
+	*pid++
+	st := itoa(int64(seat))
+	r.ops([]string{"join", st, itoa(int64(*pid)), "-"}, []string{"seat", st})
+}
+
+func (r *smRunner) nexts(n int) {
+	for ; n > 0 && !r.dead; n-- {
+		r.exec([]string{"next"})
+	}
+}
+
+// classifyNext counts the state class in which a Next() is about to run (reachability evidence for the waiting-player class).
+func (r *smRunner) classifyNext() {
+	p, w := 0, 0
+	for _, st := range r.m.GetSeats() {
+		if st.Player != nil && !st.IsReserved {
+			if st.IsActive {
+				p++
+			} else {
+				w++
+			}
+		}
+	}
+	switch {
+	case w >= 2 && p == 0:
+		r.o.Count("sm.nextclass.none_playable_2+waiting")
+	case w >= 2 && p == 1:
+		r.o.Count("sm.nextclass.one_playable_2+waiting")
+	case w >= 1 && p >= 2:
+		r.o.Count("sm.nextclass.2+playable_waiting")
+	case p == 0 && w == 0:
+		r.o.Count("sm.nextclass.nobody_sat_in")
+	}
+	if p >= 9 {
+		r.o.Count("sm.nextclass.9+playable")
+	}
+}
+
+// Waiting-player case (constructive stratum): the members of S sit in and a hand is started; newcomers take empty seats
+// (mode 1: only joined, 2: sat in at once, 3: sat in after one more hand, 4: joined BEFORE the first hand — so the seat
+// was occupied, reserved, and not deactivated by it — and sits in after the removals: the shape of the D4 witness; 5 (sampled
+// only, not enumerated): joined, left again, taken by another player who sits in at once); then
+// every member of S stays (0), leaves (1) or sits out (2); three hands follow.  newc[i] / rem[i] are indexed by seat;
+// seats outside S resp. inside S only.
+func (r *smRunner) waitingCase(max int, S []bool, newc, rem []int, remFirst bool) {
+	r.newSM(max)
+	pid := 100
+	for i := 0; i < max; i++ {
+		if S[i] {
+			r.sit(i, &pid)
+		} else if newc[i] == 4 {
+			pid++
+			r.ops([]string{"join", itoa(int64(i)), itoa(int64(pid)), "-"})
+		}
+	}
+	r.nexts(1)
+	removals := func() {
+		for i := 0; i < max; i++ {
+			if S[i] && rem[i] == 1 {
+				r.ops([]string{"leave", itoa(int64(i))})
+			} else if S[i] && rem[i] == 2 {
+				r.ops([]string{"reserve", itoa(int64(i))})
+			}
+		}
+	}
+	if remFirst {
+		// the members go first: the newcomers then arrive with "the other players staying put" (the newcomer tracker keeps them)
+		removals()
+	}
+	late := false
+	for i := 0; i < max; i++ {
+		if !S[i] && newc[i] > 0 && newc[i] != 4 {
+			pid++
+			r.ops([]string{"join", itoa(int64(i)), itoa(int64(pid)), "-"})
+			if newc[i] == 5 {
+				// the seat is given up again and taken by somebody else, who sits in (a leave must hand the seat back as it was)
+				pid++
+				r.ops([]string{"leave", itoa(int64(i))}, []string{"join", itoa(int64(i)), itoa(int64(pid)), "-"})
+				r.o.Count("sm.strata.waiting_case.retaken_seat")
+			}
+			if newc[i] == 2 || newc[i] == 5 {
+				r.ops([]string{"seat", itoa(int64(i))})
+			}
+			late = late || newc[i] == 3
+		}
+	}
+	if late {
+		r.classifyNext()
+		r.nexts(1)
+		for i := 0; i < max; i++ {
+			if !S[i] && newc[i] == 3 {
+				r.ops([]string{"seat", itoa(int64(i))})
+			}
+		}
+	}
+	if !remFirst {
+		removals()
+	}
+	for i := 0; i < max; i++ {
+		if !S[i] && newc[i] == 4 {
+			r.ops([]string{"seat", itoa(int64(i))})
+		}
+	}
+	for k := 0; k < 3 && !r.dead; k++ {
+		r.classifyNext()
+		r.nexts(1)
+	}
+	r.o.Count("sm.strata.waiting_case")
+}
+
+// forEachWaitingCase enumerates the whole case space of waitingCase for a table of `max` seats: every set S of 2..max-1
+// members, every assignment of 1..3 newcomers (four modes each) to the empty seats, every stay/leave/sit-out vector, both orders.
+func forEachWaitingCase(max int, f func(S []bool, newc, rem []int, remFirst bool)) {
+	for mask := 0; mask < 1<<max; mask++ {
+		S := make([]bool, max)
+		members, empty := []int{}, []int{}
+		for i := 0; i < max; i++ {
+			S[i] = mask>>i&1 == 1
+			if S[i] {
+				members = append(members, i)
+			} else {
+				empty = append(empty, i)
+			}
+		}
+		if len(members) < 2 || len(empty) < 1 {
+			continue
+		}
+		nn := 1
+		for range empty {
+			nn *= 5
+		}
+		nr := 1
+		for range members {
+			nr *= 3
+		}
+		for a := 1; a < nn; a++ {
+			newc := make([]int, max)
+			cnt := 0
+			for x, j := a, 0; j < len(empty); x, j = x/5, j+1 {
+				newc[empty[j]] = x % 5
+				if x%5 > 0 {
+					cnt++
+				}
+			}
+			if cnt > 3 {
+				continue
+			}
+			for b := 0; b < nr; b++ {
+				rem := make([]int, max)
+				for x, j := b, 0; j < len(members); x, j = x/3, j+1 {
+					rem[members[j]] = x % 3
+				}
+				f(S, newc, rem, false)
+				if b > 0 {
+					f(S, newc, rem, true)
+				}
+			}
+		}
+	}
+}
+
+// randomWaitingCase draws one case of that space (max 4..8) from the harness PRNG, biased towards the cases that
+// produce waiting players: newcomers who sit in on the seats the first hand deactivated (the empty seats between its
+// dealer and its big blind), and removal of all, or all but one, of the playing members.
+func (r *smRunner) randomWaitingCase(g *Rng) {
+	max := 4 + g.Intn(3)
+	if g.Chance(0.15) {
+		max = 7 + g.Intn(2)
+	}
+	for {
+		S := make([]bool, max)
+		newc, rem := make([]int, max), make([]int, max)
+		members := []int{}
+		for i := 0; i < max; i++ {
+			S[i] = g.Chance(0.45)
+			if S[i] {
+				members = append(members, i)
+			}
+		}
+		if len(members) < 2 || len(members) == max {
+			continue
+		}
+		// the first hand on a fresh table: dealer = lowest member, big blind = the second (heads-up) or third member
+		bb := members[1]
+		if len(members) > 2 {
+			bb = members[2]
+		}
+		wantGap := g.Chance(0.85)
+		nn, gaps := 0, 0
+		for i := 0; i < max && nn < 3; i++ {
+			if S[i] {
+				continue
+			}
+			gap := i > members[0] && i < bb
+			if gap {
+				gaps++
+			}
+			if (gap && g.Chance(0.85)) || (!gap && g.Chance(0.25)) {
+				switch u := g.Intn(100); {
+				case u < 8:
+					newc[i] = 5
+				case u < 50:
+					newc[i] = 2
+				case u < 70:
+					newc[i] = 3
+				case u < 88:
+					newc[i] = 4
+				default:
+					newc[i] = 1
+				}
+				nn++
+			}
+		}
+		if nn == 0 || (wantGap && gaps == 0) {
+			continue
+		}
+		keep := -1
+		u := g.Intn(100)
+		if u >= 35 && u < 65 {
+			keep = members[g.Intn(len(members))]
+		}
+		for _, i := range members {
+			switch {
+			case u >= 65:
+				rem[i] = g.Intn(3)
+			case i != keep:
+				rem[i] = 1 + g.Intn(2)
+			}
+		}
+		r.waitingCase(max, S, newc, rem, g.Chance(0.4))
+		return
+	}
+}
+
+// fullRing: a large table (7..12 seats) completely seated; 2*max+1 hands; once per lap one playing member leaves or
+// sits out (and sometimes a new player takes a free seat and sits in).
+func (r *smRunner) fullRing(g *Rng) {
+	max := 7 + g.Intn(6)
+	r.newSM(max)
+	pid := 100
+	order := make([]int, max)
+	for i := range order {
+		order[i] = i
+	}
+	g.Shuffle(max, func(i, j int) { order[i], order[j] = order[j], order[i] })
+	for _, i := range order {
+		r.sit(i, &pid)
+	}
+	lap := 2 + g.Intn(max-1)
+	for h := 0; h < 2*max+1 && !r.dead; h++ {
+		r.classifyNext()
+		r.nexts(1)
+		if h%lap == lap-1 {
+			playing := snapSM(r.m).playableSet()
+			if len(playing) > 0 {
+				st := itoa(int64(playing[g.Intn(len(playing))]))
+				if g.Chance(0.5) {
+					r.ops([]string{"leave", st})
+				} else {
+					r.ops([]string{"reserve", st})
+				}
+			}
+			if g.Chance(0.3) {
+				pid++
+				r.ops([]string{"join", "-1", itoa(int64(pid)), "-"})
+				if n := len(r.o.hist); n > 0 {
+					if f := strings.Fields(r.o.hist[n-1]); len(f) == 5 && f[4] != "-" {
+						r.ops([]string{"seat", f[4]})
+					}
+				}
+			}
+		}
+	}
+	r.o.Count("sm.strata.full_ring")
+}
+
+// roleRemovals: a ring of n = 3..8 playing members (with gaps when the table is larger); after a successful Next()
+// exactly the dealer, the small blind, the big blind or the seat after the big blind leaves or sits out, then Next();
+// repeated while the ring stays a ring.
+func (r *smRunner) roleRemovals(g *Rng) {
+	n := 3 + g.Intn(6)
+	max := n + g.Intn(3)
+	if max > 12 {
+		max = 12
+	}
+	r.newSM(max)
+	pid := 100
+	order := make([]int, max)
+	for i := range order {
+		order[i] = i
+	}
+	g.Shuffle(max, func(i, j int) { order[i], order[j] = order[j], order[i] })
+	for _, i := range order[:n] {
+		r.sit(i, &pid)
+	}
+	r.nexts(1 + g.Intn(2))
+	for round := 0; round < 4 && !r.dead; round++ {
+		s := snapSM(r.m)
+		Q := s.clockwisePlayable(s.dealer)
+		if s.dealer < 0 || len(Q) < 3 || r.lastDealer < 0 {
+			break
+		}
+		roles := []string{"dealer", "sb", "bb", "afterbb"}
+		role := g.Intn(4)
+		target := Q[0]
+		switch role {
+		case 1:
+			target = s.sb
+		case 2:
+			target = s.bb
+		case 3:
+			for k, q := range Q {
+				if q == s.bb {
+					target = Q[(k+1)%len(Q)]
+				}
+			}
+		}
+		st := itoa(int64(target))
+		kind := "leave"
+		if g.Chance(0.4) {
+			kind = "reserve"
+		}
+		r.ops([]string{kind, st})
+		r.o.Count(fmt.Sprintf("sm.role_removal.%s.%s", roles[role], kind))
+		r.o.Count(fmt.Sprintf("sm.role_removal.ring%d", len(Q)))
+		if g.Chance(0.25) {
+			// somebody takes a seat (possibly the one just vacated) and sits in before the next hand
+			pid++
+			t := itoa(int64(g.Intn(max)))
+			r.ops([]string{"join", t, itoa(int64(pid)), "-"}, []string{"seat", t})
+		}
+		r.nexts(1 + g.Intn(2))
+		if kind == "reserve" && g.Chance(0.5) {
+			r.ops([]string{"seat", st}) // sits back in
+			r.nexts(1)
+		}
+	}
+	r.o.Count("sm.strata.role_removals")
+}
+
 func runSM(dir string, seed uint64, n int) {
 	o := NewOut(dir, "sm")
 	rg := NewRng(seed)
@@ -457,14 +1151,33 @@ func runSM(dir string, seed uint64, n int) {
 		r.replay(h)
 	}
 	for i := 0; i < n; i++ {
+		u := rg.Intn(1000)
+		switch {
+		case u < 140:
+			r.randomWaitingCase(rg)
+			continue
+		case u < 165:
+			r.fullRing(rg)
+			continue
+		case u < 240:
+			r.roleRemovals(rg)
+			continue
+		}
 		max := 2 + rg.Intn(5)
 		if rg.Chance(0.15) {
 			max = 7 + rg.Intn(3)
+			if rg.Chance(0.25) {
+				max = 10 + rg.Intn(3)
+			}
+		}
+		if u < 252 {
+			max = rg.Intn(2) // probes: a table without seats, a table with one seat
+			o.Count("sm.strata.tiny_table")
 		}
 		r.newSM(max)
 		pid := 100
 		steps := 6 + rg.Intn(30)
-		if rg.Chance(0.3) {
+		if rg.Chance(0.3) && max >= 2 {
 			// life-cycle scenario: a table fills, plays some hands, newcomers arrive (some on seats the button
 			// has not passed, some only joined), then the players who were playing leave or sit out — all of them,
 			// or all but one — and the table moves on with whoever is left
@@ -514,22 +1227,41 @@ func runSM(dir string, seed uint64, n int) {
 				}
 			}
 			for j := 1 + rg.Intn(3); j > 0 && !r.dead; j-- {
+				r.classifyNext()
 				r.exec([]string{"next"})
 			}
 			steps = rg.Intn(10)
 		}
 		for s := 0; s < steps && !r.dead; s++ {
-			op := genSMOp(rg, max, &pid)
+			op := r.genOp(rg, &pid)
+			if op[0] == "next" {
+				r.classifyNext()
+			}
 			r.exec(op)
-			// a newcomer scenario: after a join between dealer and bb, sit in and only move the button
+			// a newcomer scenario: after a join between dealer and bb, sit in — at once, or after one or two more hands
+			// have been started (C08.newcomer_timing_interleaved) — and only move the button
 			if r.nx >= 0 && !r.nxSeated && rg.Chance(0.6) {
-				r.exec([]string{"seat", itoa(int64(r.nx))})
+				if rg.Chance(0.15) {
+					// the newcomer gives the seat up again and another player takes it
+					st := itoa(int64(r.nx))
+					pid++
+					r.ops([]string{"leave", st}, []string{"join", st, itoa(int64(pid)), "-"})
+					o.Count("sm.newcomer_seat_retaken")
+				}
+				if r.nx >= 0 && rg.Chance(0.35) {
+					r.nexts(1 + rg.Intn(2))
+				}
+				if r.nx >= 0 {
+					r.exec([]string{"seat", itoa(int64(r.nx))})
+				}
 				for k := 0; k < max+1 && !r.dead; k++ {
 					r.exec([]string{"next"})
 				}
 			}
 		}
-		o.Count(fmt.Sprintf("sm.max.%d", max))
+		if rg.Chance(0.01) {
+			r.nilPlayerProbe(max, rg.Intn(max+1)-1)
+		}
 		if i < 2 {
 			o.Sample(strings.Join(o.hist, " ; "))
 		}
@@ -541,6 +1273,10 @@ func runSM(dir string, seed uint64, n int) {
 func (r *smRunner) replay(lines []string) {
 	for _, l := range lines {
 		f := strings.Fields(l)
+		if len(f) == 5 && f[0] == "noise" && f[1] == "sm" && f[2] == "nilplayer" {
+			r.nilPlayerProbe(int(atoi(f[3])), int(atoi(f[4])))
+			continue
+		}
 		if len(f) < 2 || f[0] != "sm" {
 			continue
 		}
@@ -562,17 +1298,60 @@ var corpusSM = [][]string{
 }
 
 // runSMRace: racing Join calls on different goroutines (C18, schedules).  The outcome must
-// be the outcome of some sequential order of the calls.
+// be the outcome of some sequential order of the calls.  Three kinds of table: a fresh one with some players seated;
+// one that has played a hand (so empty seats between dealer and big blind are inactive: join-any takes its alternate
+// path once the active free seats are used up); and such a table with some empty seats reserved (join-any must skip
+// them, a specific join may take them).
 func runSMRace(o *Out, rg *Rng, rounds int) {
 	for it := 0; it < rounds; it++ {
 		max := 2 + rg.Intn(8)
 		m := sm.NewSeatManager(max)
 		pre := 0
-		for i := 0; i < max; i++ {
-			if rg.Chance(0.3) {
-				m.Join(i, 1000+i)
-				pre++
+		kind := it % 3
+		setup := fmt.Sprintf("race max=%d kind=%d", max, kind)
+		if kind == 0 {
+			for i := 0; i < max; i++ {
+				if rg.Chance(0.3) {
+					m.Join(i, 1000+i)
+					pre++
+				}
 			}
+		} else {
+			for i := 0; i < max; i++ {
+				if rg.Chance(0.45) {
+					m.Join(i, 1000+i)
+					m.Seat(i)
+					pre++
+					setup += fmt.Sprintf(" sit%d", i)
+				}
+			}
+			if m.Next() == nil {
+				o.Count("sm.race_rounds.after_next")
+				setup += " next"
+			}
+			if kind == 2 {
+				for i := 0; i < max; i++ {
+					if st := m.GetSeat(i); st.Player == nil && rg.Chance(0.4) {
+						m.Reserve(i)
+						setup += fmt.Sprintf(" reserve%d", i)
+						o.Count("sm.race_reserved_empty_seats")
+					}
+				}
+			}
+		}
+		reservedEmpty := map[int]bool{}
+		inactiveFree, activeFree := 0, 0
+		for _, st := range m.GetSeats() {
+			if st.Player == nil && st.IsReserved {
+				reservedEmpty[st.ID] = true
+			} else if st.Player == nil && st.IsActive {
+				activeFree++
+			} else if st.Player == nil {
+				inactiveFree++
+			}
+		}
+		if inactiveFree > 0 {
+			o.Count("sm.race_rounds.with_inactive_free_seats")
 		}
 		k := 8
 		type res struct {
@@ -604,35 +1383,45 @@ func runSMRace(o *Out, rg *Rng, rounds int) {
 		close(start)
 		wg.Wait()
 		o.Count("sm.race_rounds")
+		viol := func(mon, msg string) {
+			o.hist = []string{setup}
+			o.Violate("C18", mon, msg)
+		}
 		succ := 0
 		seatOf := map[int]int{}
 		for g, rs := range results {
 			if rs.err == nil {
 				succ++
 				if prev, dup := seatOf[rs.got]; dup {
-					o.hist = []string{fmt.Sprintf("race max=%d", max)}
-					o.Violate("C18", "race_double_booking", fmt.Sprintf("goroutines %d and %d both got seat %d", prev, g, rs.got))
+					viol("race_double_booking", fmt.Sprintf("goroutines %d and %d both got seat %d", prev, g, rs.got))
 				}
 				seatOf[rs.got] = g
 				if rs.seat >= 0 && rs.got != rs.seat {
-					o.hist = []string{fmt.Sprintf("race max=%d", max)}
-					o.Violate("C18", "race_wrong_seat", fmt.Sprintf("asked for seat %d, got %d", rs.seat, rs.got))
+					viol("race_wrong_seat", fmt.Sprintf("asked for seat %d, got %d", rs.seat, rs.got))
+				}
+				if rs.seat < 0 && reservedEmpty[rs.got] {
+					// join_spec under schedules: join-any puts the player on an empty NON-RESERVED seat
+					viol("race_reserved_seat", fmt.Sprintf("join-any of goroutine %d landed on the reserved empty seat %d", g, rs.got))
+				}
+				if rs.seat < 0 && inactiveFree > 0 {
+					o.Count("sm.race_join_any_with_inactive_free")
 				}
 			} else if rs.err.Error() == "panic" {
-				o.hist = []string{fmt.Sprintf("race max=%d", max)}
-				o.Violate("C18", "race_panic", "Join panicked under concurrency")
+				viol("race_panic", "Join panicked under concurrency")
 			}
 		}
 		if m.GetPlayerCount() != pre+succ {
-			o.hist = []string{fmt.Sprintf("race max=%d", max)}
-			o.Violate("C18", "race_count", fmt.Sprintf("%d seated, %d before + %d successful joins", m.GetPlayerCount(), pre, succ))
+			viol("race_count", fmt.Sprintf("%d seated, %d before + %d successful joins", m.GetPlayerCount(), pre, succ))
 		}
 		for _, s := range m.GetSeats() {
 			if s.Player != nil {
 				if g, ok := s.Player.(int); ok && g < 1000 {
-					if seatOf[s.ID] != g {
-						o.hist = []string{fmt.Sprintf("race max=%d", max)}
-						o.Violate("C18", "race_seat_map", fmt.Sprintf("seat %d holds goroutine %d's player but %d was told it got the seat", s.ID, g, seatOf[s.ID]))
+					if got, ok := seatOf[s.ID]; !ok || got != g {
+						viol("race_seat_map", fmt.Sprintf("seat %d holds goroutine %d's player but %d was told it got the seat", s.ID, g, seatOf[s.ID]))
+					}
+					if !s.IsReserved {
+						// joined_held_out under schedules: a racing join leaves its player reserved
+						viol("race_held_out", fmt.Sprintf("seat %d taken by a racing join is not reserved", s.ID))
 					}
 				}
 			}
@@ -642,8 +1431,7 @@ func runSMRace(o *Out, rg *Rng, rounds int) {
 			if rs.err != nil && rs.err.Error() != "panic" {
 				if rs.seat >= 0 {
 					if st := m.GetSeat(rs.seat); st == nil || st.Player == nil {
-						o.hist = []string{fmt.Sprintf("race max=%d", max)}
-						o.Violate("C18", "race_refused_free_seat", fmt.Sprintf("goroutine %d was refused seat %d which is empty at the end", g, rs.seat))
+						viol("race_refused_free_seat", fmt.Sprintf("goroutine %d was refused seat %d which is empty at the end", g, rs.seat))
 					}
 				} else if m.GetPlayerCount() < max {
 					free := false
@@ -653,8 +1441,7 @@ func runSMRace(o *Out, rg *Rng, rounds int) {
 						}
 					}
 					if free {
-						o.hist = []string{fmt.Sprintf("race max=%d", max)}
-						o.Violate("C18", "race_refused_free_seat", fmt.Sprintf("goroutine %d was told no seat is available but one is free at the end", g))
+						viol("race_refused_free_seat", fmt.Sprintf("goroutine %d was told no seat is available but one is free at the end", g))
 					}
 				}
 			}
